@@ -232,6 +232,33 @@ def run(ctx):
                     ctx.violation({"op": "hmax", "via": how, "time_axis": "non-uniform"},
                                   "hmax via %s on a non-uniform time axis (mean step 5400 s): expected %.12g = sqrt(ln(N)/2) hs with N = round(5400 / Tm02), "
                                   "library returned %.12g" % (how, exp, got), {"F": v["F"], "D": v["D"], "E": v["E"], "steps_s": np.diff(t).tolist()})
+    # ---- the drift components for any reference angle theta follow from the two default ones (checked above against the
+    # defining integrals): uss_x(theta) = A sin(theta) + B cos(theta), uss_y(theta) = B sin(theta) - A cos(theta) with
+    # A = uss_x(90), B = uss_y(90); the same for the directional moments momd(1, theta)
+    for (F, D), vs in list(groups.items()):
+        if not D or len(D) < 2:
+            continue
+        sub = vs[: (20 if ctx.quick else 300)]
+        batch = L.build_batch(list(F), list(D), [v["E"] for v in sub])
+        for how, acc in (("DataArray", batch.spec), ("Dataset", batch.to_dataset(name="efth").spec)):
+            for depth in (None, 12.0):
+                A = np.asarray(acc.uss_x(depth=depth).values, float)
+                B = np.asarray(acc.uss_y(depth=depth).values, float)
+                for theta in (0.0, 37.0, 180.0, 270.0):
+                    th = math.radians(theta)
+                    gx = np.asarray(acc.uss_x(depth=depth, theta=theta).values, float)
+                    gy = np.asarray(acc.uss_y(depth=depth, theta=theta).values, float)
+                    ex, ey = A * math.sin(th) + B * math.cos(th), B * math.sin(th) - A * math.cos(th)
+                    scale = np.abs(np.asarray(acc.uss(depth=depth).values, float)) + 1e-3     # the speed: components may cancel to rounding
+                    ctx.case(("uss-theta", how, depth, theta, tuple(F), tuple(D)), True)
+                    bad = (np.abs(gx - ex) > 1e-9 * scale + 1e-15) | (np.abs(gy - ey) > 1e-9 * scale + 1e-15)
+                    if bad.any():
+                        k = int(np.argmax(bad))
+                        ctx.violation({"op": "uss_y" if abs(gy[k] - ey[k]) > abs(gx[k] - ex[k]) else "uss_x", "via": how, "theta": theta},
+                                      "Stokes drift components at theta=%g (depth=%s) via %s: got (%.9g, %.9g), the defining integral gives (%.9g, %.9g)" %
+                                      (theta, depth, how, gx[k], gy[k], ex[k], ey[k]), {"F": sub[k]["F"], "D": sub[k]["D"], "E": sub[k]["E"]})
+                    else:
+                        ctx.replayed(len(sub))
     dispersion(ctx)
     depth_terms(ctx, some)
     ctx.assume("exactness holds on the lattice (frequencies multiples of 0.05 Hz, whole degrees, integer energies); float32 compared at 3e-6")
